@@ -5,7 +5,8 @@
 //	grp g=<GOMAXPROCS> c=<cpus|0> r=<repetitions> y=<seed> x=<0|1> <label>:<n> <entry>*n  <label>:<n> <entry>*n ...
 //
 // entry = <kind>:<relative path hex>:<content hex>, kinds: f regular file, d directory, m missing, l dangling symlink,
-// n path whose parent is a regular file, v regular file that is removed while the hasher runs. A 0x00 byte inside a
+// n path whose parent is a regular file, v regular file that is removed while the hasher runs, r opens but cannot be
+// read (a symlink to /proc/self/mem: open and stat succeed, read fails with EIO). A 0x00 byte inside a
 // relative path stands for the absolute root directory (needed for the D3 witness, whose path embeds another path).
 // The first variant is the base list; labels perm/dirs = same collection, content/rename/add/remove/diff = a different
 // collection, other = unrelated. Every variant is materialised in a fresh temp tree and hashed `r` times with the real
@@ -260,6 +261,9 @@ func build(root string, v variant) {
 		case 'l':
 			_ = os.MkdirAll(filepath.Dir(p), 0o755)
 			_ = os.Symlink("no-such-target", p)
+		case 'r':
+			_ = os.MkdirAll(filepath.Dir(p), 0o755)
+			_ = os.Symlink("/proc/self/mem", p)
 		case 'm':
 			_ = os.MkdirAll(filepath.Dir(p), 0o755)
 		}
@@ -845,8 +849,25 @@ func faultEntry(kind byte, i int) entry {
 		return entry{'v', fmt.Sprintf("van%d", i), "soon gone"}
 	case 'l':
 		return entry{'l', fmt.Sprintf("link%d", i), ""}
+	case 'r':
+		return entry{'r', fmt.Sprintf("eio%d", i), ""}
 	}
 	return entry{'m', fmt.Sprintf("nope%d.txt", i), ""}
+}
+
+// faultKinds: missing, dangling link, parent is a file, vanishing — and "read fails" where /proc/self/mem behaves so
+func faultKinds() []byte {
+	ks := []byte{'m', 'l', 'n', 'v'}
+	if fh, err := os.Open("/proc/self/mem"); err == nil {
+		var b [1]byte
+		if st, err := fh.Stat(); err == nil && st.Mode().IsRegular() {
+			if _, err := fh.Read(b[:]); err != nil {
+				ks = append(ks, 'r')
+			}
+		}
+		fh.Close()
+	}
+	return ks
 }
 
 func insertAt(c coll, pos int, e entry) coll {
@@ -1017,7 +1038,8 @@ func genC04(em *emitter, thorough bool, reps, permMax, bigN, nRand, ncpu int) {
 func genC18(em *emitter, thorough bool, reps, bigN, nRand, ncpu int) {
 	rng := em.rng
 	// a missing / dangling / not-a-directory / vanishing entry at every position of lists of size ≤ 6, for every GOMAXPROCS
-	for _, kind := range []byte{'m', 'l', 'n', 'v'} {
+	kinds := faultKinds()
+	for _, kind := range kinds {
 		for n := 1; n <= 6; n++ {
 			good := clone(bases()[14][:n-1])
 			var vs []variant
@@ -1047,13 +1069,16 @@ func genC18(em *emitter, thorough bool, reps, bigN, nRand, ncpu int) {
 		{entry{'m', "no/such/dir/file", ""}},
 		{entry{'l', "d/link", ""}, d("d")},
 	}
+	if len(kinds) > 4 {
+		special = append(special, coll{faultEntry('r', 0), f("a", "1")}, coll{faultEntry('r', 0), faultEntry('r', 0), faultEntry('m', 1)})
+	}
 	for _, c := range special {
 		em.emit(0, reps, []variant{{"base", c}, {"perm", reversed(c)}})
 	}
 	// list sizes 0 … 4·NumCPU: all readable, and with one fault somewhere
 	for n := 0; n <= 4*ncpu; n++ {
 		b := sized(n)
-		kind := []byte{'m', 'l', 'n', 'v'}[n%4]
+		kind := kinds[n%len(kinds)]
 		em.emit(0, reps/2, []variant{{"base", b}, {"perm", shuffled(b, rng)}, {"other", insertAt(b, rng.Intn(n+1), faultEntry(kind, 0))}})
 	}
 	// one path many times, directories only
@@ -1083,7 +1108,7 @@ func genC18(em *emitter, thorough bool, reps, bigN, nRand, ncpu int) {
 		nf := rng.Intn(3)
 		c := clone(b)
 		for j := 0; j < nf; j++ {
-			c = insertAt(c, rng.Intn(len(c)+1), faultEntry([]byte{'m', 'l', 'n', 'v'}[rng.Intn(4)], j))
+			c = insertAt(c, rng.Intn(len(c)+1), faultEntry(kinds[rng.Intn(len(kinds))], j))
 		}
 		em.emit(0, 10, []variant{{"base", c}, {"perm", shuffled(c, rng)}, {"other", b}})
 	}
